@@ -209,15 +209,6 @@ def run_encoders(ck):
     ck.obligation("float texts parse back to the value (hypothesis of the number rendering)", not numloss,
                   "case ids: %s %s" % (numloss[:10], [byid[i]["numloss"] for i in numloss[:3]]))
 
-    # recorded finding: /series splices the stored label text; a stored text that is not JSON (the writer's
-    # strconv.Quote form of a control byte, C04) makes the body invalid. Outside this property's encoders.
-    known = ck.known_findings()
-    spliced = [c for c in ok_cases if c["kind"] == "series" and c["id"] in unread_s and c["gorows"].startswith("skip:stored")]
-    if spliced and "series-splices-stored-labels" in known:
-        w = min(spliced, key=lambda c: (c["id"] < 1000000, case_size(c)))     # the corpus witness first
-        ck.report_known("series-splices-stored-labels", "stored labels %r -> body %r" % (
-            [unhex(it).decode("latin1") for it in w["items"]][:3], unhex(w["out"]).decode("latin1")[:120]))
-
     bad = viol or godiff
     if bad:
         worst = min((byid[i] for i in bad), key=case_size)
